@@ -431,9 +431,15 @@ def expand_enum(op: dict) -> list[dict]:
         return []
     subs: list[dict] = []
     if op.get("opt", True):
-        for strict in (False, True):
-            for k in range(c.n_pass):
-                subs.append({"op": "opt_abort", "pid": pid, "k": k, "scope": "top", "strict": strict})
+        for k in range(c.n_pass):
+            subs.append({"op": "opt_abort", "pid": pid, "k": k, "scope": "top", "strict": False})
+        strict_ks = list(range(c.n_pass))
+        if not op.get("all_modes", False):
+            # quick tier: the strict verdict is only raise-vs-return; first, last and four seeded pass indices
+            rs = rng("c16-strict", op.get("seed", 0), pid)
+            strict_ks = sorted({0, c.n_pass - 1, *rs.sample(range(c.n_pass), min(4, c.n_pass))})
+        for k in strict_ks:
+            subs.append({"op": "opt_abort", "pid": pid, "k": k, "scope": "top", "strict": True})
         fn_cap = int(op.get("fn_cap", 4))
         for j in range(min(c.n_fn, fn_cap)):
             for k in range(c.n_pass):
@@ -535,7 +541,7 @@ def select_programs(registry: list[str], tier: str, seed: int) -> list[str]:
     if tier == "thorough":
         n = int(os.environ.get("VERIF_C16_PROGRAMS", "100000"))
     else:
-        n = int(os.environ.get("VERIF_C16_PROGRAMS", "120"))
+        n = int(os.environ.get("VERIF_C16_PROGRAMS", "100"))
     r = rng("c16-select", seed)
     biased = [p for p in registry if any(b in p.lower() for b in _BIAS)]
     others = [p for p in registry if p not in set(biased)]
